@@ -1,7 +1,12 @@
 import FlatModel.Props.C09
+import FlatModel.Props.UniverseOps
 #print axioms FC.C09.clone_equal
 #print axioms FC.C09.cloneFrom_equal
 #print axioms FC.C09.clone_observe
 #print axioms FC.C09.cloneFrom_observe
 #print axioms FC.sim_observe
 #print axioms FC.reach_inv
+#print axioms FC.Universe.C09_every_composition
+#print axioms FC.Universe.C09_sim_every_composition
+#print axioms FC.Universe.C09_C10_reach_every_composition
+#print axioms FC.Universe.reach_inv_every_composition
